@@ -137,7 +137,7 @@ func init() {
 			{Name: "no-eviction", Weight: 2, Fn: c10Profile(true)},
 		},
 		Components: map[string][]string{
-			"real": {"pkg/blobstore/local: hierarchical CAS blob access, old/current/new map, volatile block list, allocators, hashing index", "pkg/digest (instance names, parent digests)", "pkg/blobstore/buffer"},
+			"real": {"pkg/blobstore/configuration new_blob_access.go (W-config runs: the store is assembled by the unmodified NewBlobAccessFromConfiguration; top-level decorators, metrics wrappers, allocator collectors)", "pkg/blobstore existence caching decorator (half of the W-config runs)", "pkg/blobstore/local: hierarchical CAS blob access, old/current/new map, volatile block list, allocators, hashing index", "pkg/digest (instance names, parent digests)", "pkg/blobstore/buffer"},
 			"stub": {"block devices (simdisk)", "sources/sinks", "scheduling (verifsimrt)"},
 		},
 		Rule:           "a run = instance-name tree {\"\", a, a/b, a/b/c, ab, b} x 1-4 concurrent clients x 6-30 operations (uploads with valid, short, long, flipped and erroring content under any name, reads and existence checks under any name, rotations) followed by a sweep probing every object under every name; visibility oracle: present/readable under J requires a successful or in-flight valid upload under a component-wise prefix of J; the no-eviction profile also requires the converse; non-trivial = interleaved or failed uploads and at least one successful read",
